@@ -1,7 +1,7 @@
 """helpers shared by several property checkers."""
 import ast
 
-from ..model import AnalysisError, unparse, walk_local, call_name
+from ..model import AnalysisError, unparse, walk_local, call_name, dotted
 from ..engines import dimgen, resolve
 
 # (module, function-prefix) -> reason : objects that are three-dimensional by definition
@@ -292,6 +292,30 @@ def _deep_tokens(an, toks):
     return seen
 
 
+def _mutable_evidence(fn, p):
+    """the method treats parameter ``p`` as a container / array / object compared by identity (something a caller can edit
+    in place), not as a plain scalar: it is subscripted, iterated, measured, unpacked into numpy, or compared with ``is``."""
+    for n in ast.walk(fn):
+        if isinstance(n, ast.Subscript) and isinstance(n.value, ast.Name) and n.value.id == p:
+            return True
+        if isinstance(n, (ast.For, ast.comprehension)):
+            if any(isinstance(x, ast.Name) and x.id == p for x in ast.walk(n.iter)):
+                return True
+        if isinstance(n, ast.Call):
+            f = (dotted(n.func) or '')
+            if f.split('.')[-1] in ('len', 'asarray', 'array', 'array_equal', 'allclose', 'all', 'any', 'zip', 'enumerate', 'tuple', 'list',
+                                    'sorted', 'isclose', 'dot', 'ascontiguousarray') \
+                    and any(isinstance(x, ast.Name) and x.id == p for a in n.args for x in ast.walk(a)):
+                return True
+        if isinstance(n, ast.Compare) and any(isinstance(o, (ast.Is, ast.IsNot)) for o in n.ops):
+            sides = [n.left] + n.comparators
+            if any(isinstance(x, ast.Name) and x.id == p for x in sides) and not any(isinstance(x, ast.Constant) and x.value is None for x in sides):
+                return True
+        if isinstance(n, ast.Attribute) and isinstance(n.value, ast.Name) and n.value.id == p:
+            return True   # an object with attributes
+    return False
+
+
 def _memo_keys_owned(model, rep, setters, rule='memo-key-owned'):
     """A state-setting method that remembers what it was last called with (to skip a repeated call) must remember a *copy*:
     if the remembered key shares storage with the caller's argument (``np.asarray`` of a float array is the array itself),
@@ -319,10 +343,11 @@ def _memo_keys_owned(model, rep, setters, rule='memo-key-owned'):
             if a is None or a.split('[')[0].split('.')[0] not in gattrs or path.endswith('()'):
                 continue
             deep = _deep_tokens(an, toks)
-            shared = sorted(p for p in params if any(t == 'P:' + p or t.startswith('P:%s.' % p) or t == 'E:P:' + p for t in deep))
+            shared = sorted(p for p in params if any(t == 'P:' + p or t.startswith('P:%s.' % p) or t == 'E:P:' + p for t in deep)
+                            and _mutable_evidence(fn, p))
             rep.ob(rule, mod, node, '%s.%s: %s = %s' % (cname, meth, path, unparse(getattr(node, 'value', node))[:60]), not shared,
-                   '' if not shared else 'the remembered value is (or contains a view of) the caller\'s own %s: after the caller edits '
-                   'that array in place the guard compares it with itself and skips the recomputation' % ', '.join(shared),
+                   '' if not shared else 'the remembered value is (or contains a view of) the caller\'s own %s: after the caller changes '
+                   'that object in place the guard compares it with itself and skips the recomputation' % ', '.join(shared),
                    engine='alias', qual='%s.%s' % (cname, meth))
     # synthetic positive example
     from ..model import attach_parents
@@ -685,3 +710,74 @@ def inverse_map_placed(model, rep, sites, rule='inverse-map-placed'):
                    '0..N-1' % mem, engine='pattern', qual=q)
         else:
             rep.undecided('%s: how self.%s is placed was not recognised' % (q, attr))
+
+
+# ---------------------------------------------------------------- tests on dimensional quantities are scale free
+RATE_ROOTS = {
+    # (module, class, method): calls that return rates (degree 1 under a uniform scaling of all jump rates) / probabilities
+    ('OnsagerCalc', 'Interstitial', 'diffusivity'): {'self.ratelist': 1, 'self.symmratelist': 1, 'self.siteprob': 0},
+    ('OnsagerCalc', 'Interstitial', 'elastodiffusion'): {'self.ratelist': 1, 'self.symmratelist': 1, 'self.siteprob': 0},
+    ('OnsagerCalc', 'Interstitial', 'losstensors'): {'self.ratelist': 1, 'self.symmratelist': 1, 'self.siteprob': 0},
+    ('OnsagerCalc', 'VacancyMediated', 'Lij'): {'self._symmetricandescaperates': (1, 1, 1, 1, 1, 1)},
+    ('GFcalc', 'GFCrystalcalc', 'SetRates'): {'self.SymmRates': 1},
+}
+# attributes of self that carry rates (or whose scaling is not known); every other attribute is geometry / bookkeeping
+RATE_ATTRS = {'GFcalc': ('symmrate', 'maxrate', 'escape', 'omega_qij', 'omega_Taylor', 'g_Taylor', 'gT_ij', 'D', 'eta', 'r', 'vr', 'd', 'e',
+                         'pqtrans', 'pmax', 'qptrans', 'uxtrans', 'Taylor_fnlp', 'g_Taylor_fnlp', 'gkpt', 'rates'),
+              'OnsagerCalc': ('GFcalc', 'GFvalues', 'Lvvvalues', 'etavvalues', 'bias_solver')}
+
+
+def scale_free_tests(model, rep, roots=None, rule='scale-free-tests'):
+    """In the transport routines (and what they call): no quantity whose value scales with the jump rates is compared with a
+    pure number -- through ``np.allclose(x, 0)`` / ``np.isclose`` (absolute tolerance), an ordering against a constant, or
+    an absolute cut-off handed to a pseudo-inverse.  Such a test changes its outcome under a uniform scaling of all rates
+    (low temperature, another unit of time), so the result stops being proportional to the rates.  Degrees are inferred by
+    the units engine; where a degree is unknown nothing is reported."""
+    from fractions import Fraction
+    from ..engines import units
+    rep.rule(rule, 'no test compares a quantity that scales with the jump rates against a pure number (absolute tolerance)')
+    nfun = 0
+    for (mname, cname, meth), seeds in RATE_ROOTS.items():
+        if roots is not None and (mname, cname, meth) not in roots:
+            continue
+        mod = model.mod(mname)
+        ci = model.cls(mname, cname)
+        fn = ci.methods.get(meth)
+        if fn is None:
+            raise AnalysisError('anchor vanished: %s.%s' % (cname, meth))
+        cd = {k: (tuple(Fraction(x) for x in v) if isinstance(v, tuple) else Fraction(v)) for k, v in seeds.items()}
+
+        class _Attrs(dict):
+            def __contains__(self, k):
+                return isinstance(k, str) and k.startswith('self.') and k.count('.') == 1
+
+            def __getitem__(self, k):
+                return None if k.split('.')[1] in RATE_ATTRS.get(mname, ()) else Fraction(0)
+        an = units.Analyzer(model, mod, ci, call_degrees=cd, attr_degrees=_Attrs(), depth=2)
+        params = {a.arg: Fraction(0) for a in fn.args.args[1:] + fn.args.kwonlyargs}
+        an.run(fn, '%s.%s' % (cname, meth), params)
+        nfun += 1
+        q = '%s.%s' % (cname, meth)
+        if not an.sites:
+            rep.ob(rule, mod, fn, '%s: every test on a rate-dimensioned quantity is relative' % q, True, engine='units', qual=q)
+        seen = set()
+        for s in an.sites:
+            key = (s.node.lineno, s.node.col_offset, s.what)
+            if key in seen:
+                continue
+            seen.add(key)
+            via = ' (reached from %s through %s)' % (q, ' -> '.join(unparse(c.func) for _, c in s.chain)) if s.chain else ''
+            rep.ob(rule, mod, s.node, '%s: %s%s' % (s.qual, s.what, via), False,
+                   'the outcome of this test changes when every jump rate is multiplied by the same factor: for small rates (low '
+                   'temperature, another unit of time) the other branch is taken and the result is no longer proportional to the rates',
+                   engine='units', qual=s.qual)
+    # synthetic positive example
+    import ast as _ast
+    from ..model import attach_parents
+    probe = attach_parents(_ast.parse('def f(self, a):\n    w = self.rates(a)\n    b = np.dot(w, a)\n    if np.allclose(b, 0):\n        return 0\n'
+                                      '    keep = np.abs(b) > 1e-8\n    ok = np.abs(b) > 1e-8 * np.abs(b).max()\n    return b\n')).body[0]
+    an = units.Analyzer(None, None, None, call_degrees={'self.rates': Fraction(1)}, depth=0)
+    an.run(probe, 'f', {'a': Fraction(0)})
+    if sorted(s.node.lineno for s in an.sites) != [4, 6]:
+        raise AnalysisError('units engine self-check failed: %s' % [(s.node.lineno, s.what) for s in an.sites])
+    return nfun
